@@ -27,7 +27,7 @@ class OpResult {
   OpResult(const OpResult<T>& oth) : ptr_(oth ? new (buf_) T(*oth.ptr_) : nullptr) {}
 
   OpResult(OpResult<T>&& oth) : ptr_(oth ? new (buf_) T(std::move(*oth.ptr_)) : nullptr) {
-    oth.ptr_ = nullptr;
+    oth.reset();
   }
 
   OpResult& operator=(const OpResult& oth) {
@@ -56,7 +56,7 @@ class OpResult {
 
     if (oth) {
       ptr_ = new (buf_) T(std::move(*oth.ptr_));
-      oth.ptr_ = nullptr;
+      oth.reset();
     } else {
       ptr_ = nullptr;
     }
@@ -92,6 +92,14 @@ class OpResult {
   }
 
  private:
+  // Disengage, destroying the contained (possibly moved-from) object.
+  void reset() {
+    if (ptr_) {
+      ptr_->~T();
+      ptr_ = nullptr;
+    }
+  }
+
   alignas(T) char buf_[sizeof(T)];
   T* ptr_;
 };
